@@ -6,6 +6,19 @@ var _ = gosym.Options{}
 
 var props = []PropSpec{
 	{
+		ID: "C07", Level: "other",
+		Explanation: "bounded symbolic execution of the real Pratt parser (parser.expression) on `a OP b OP c OP d` where every operator token kind is a solver variable ranging over all infix and assignment operator tokens (lexer replaced by a stub serving the kinds); the parsed tree's bracket structure is compared with a reference splitter written from the operator table in the property statement; prefix/postfix/as/layout variants run through the real lexer",
+		Harnesses: []HarnessSpec{
+			{Pkg: "homescript/parser", Func: "VerifHarness_Precedence", Quick: map[string]int{"OPS": 2}, Thor: map[string]int{"OPS": 3}, Require: []string{"parsed"},
+				Overrides: map[string]string{"(*~/homescript/lexer.Lexer).NextToken": "~/homescript/parser.verifStubNextToken"},
+				What: "every ordered pair (thorough: triple) of binary operators with symbolic token kinds: bracket structure = operator table (assignment < || < && < | < ^ < & < equality < comparison < shift < additive < multiplicative < **, ** right-assoc, others left-assoc)"},
+			{Pkg: "homescript/parser", Func: "VerifHarness_PrefixPostfix", Quick: map[string]int{}, Require: []string{"parsed"},
+				What: "prefix (! - ?) x postfix (call, index, member) x 13 binary operators on both operands; whitespace/comment and parenthesised-operand layout variants give the same tree"},
+			{Pkg: "homescript/parser", Func: "VerifHarness_AsAndCommas", Quick: map[string]int{}, Require: []string{"parsed"},
+				What: "`as` binds between multiplicative and **; trailing comma in call and list"},
+		},
+	},
+	{
 		ID: "C13", Level: "other",
 		Explanation: "algebraic laws asserted as SMT terms over symbolic values of one static type (type shape from selectors; list lengths, none/some, any-object key sets and all scalar payloads independent solver variables): IsEqual reflexive/symmetric/transitive and equal to reference structural equality, Clone equal and unshared, both value libraries render the same text, to_json -> parse_json -> cast round trip equal",
 		Harnesses: []HarnessSpec{
